@@ -135,7 +135,7 @@ type c05Cred struct {
 
 func CheckC05(l *Lab, verifDir string) int {
 	rep := NewReport("C05", l.Tier, l.Seed, "exploration", verifDir)
-	rep.Rule = "one real gateway process per startable subset of {openid, kerberos, local, ntlm} (all 12, the empty one included; ntlm subsets use the real rdpgw-auth with its user file and a PAM stand-in, the other local subsets a logging stand-in service; kerberos uses a generated keytab and SPNEGO tokens forged offline; TLS with a run-time certificate whenever local is enabled); per process: methods {RDG_OUT_DATA upgrade, RDG_OUT_DATA legacy, RDG_IN_DATA, GET, POST, OPTIONS, lower-case variants} x Authorization {absent, empty, bare scheme words, wrong-case / truncated schemes, bad base64, no colon, wrong / other user's / right password, credentials of a disabled scheme, two headers in both orders, 8 KiB header, NTLM message orderings (type 3 without type 1, on a new connection, for another connection's challenge, replayed, type 1 twice), valid / expired / wrong-key / garbled SPNEGO tokens, PRNG header strings in thorough}. Oracle: reached-handler (101, legacy accepts, 200 for other methods) iff an enabled scheme's credentials were confirmed (openid alone: always); the tunnel's user is the confirmed one (host policy 127.0.0.1:{{ preferred_username }} with users named after their backend's port: channel-create to port p succeeds iff the tunnel user is p); no header => 401 with exactly the challenges of the enabled mechanisms; Basic requests produce exactly one backend call with the decoded credentials. non-trivial = request answered; distinct = subset x method x credential class x outcome"
+	rep.Rule = "one real gateway process per startable subset of {openid, kerberos, local, ntlm} (all 12, the empty one included; ntlm subsets use the real rdpgw-auth with its user file and a PAM stand-in, the other local subsets a logging stand-in service; kerberos uses a generated keytab and SPNEGO tokens forged offline; TLS with a run-time certificate whenever local is enabled); per process: methods {RDG_OUT_DATA upgrade, RDG_OUT_DATA legacy, RDG_IN_DATA, GET, POST, OPTIONS, lower-case variants} x Authorization {absent, empty, bare scheme words, wrong-case / truncated schemes, bad base64, no colon, wrong / other user's / right password, credentials of a disabled scheme, two headers in both orders, 8 KiB header, NTLM message orderings (type 3 without type 1, on a new connection, for another connection's challenge with and without identical forwarding headers, replayed, type 1 twice), overlapping Basic requests of one user with different passwords and of different users (stand-in service made slow), valid / expired / wrong-key / garbled SPNEGO tokens, PRNG header strings in thorough}. Oracle: reached-handler (101, legacy accepts, 200 for other methods) iff an enabled scheme's credentials were confirmed (openid alone: always); the tunnel's user is the confirmed one (host policy 127.0.0.1:{{ preferred_username }} with users named after their backend's port: channel-create to port p succeeds iff the tunnel user is p); no header => 401 with exactly the challenges of the enabled mechanisms; Basic requests produce exactly one backend call with the decoded credentials. non-trivial = request answered; distinct = subset x method x credential class x outcome"
 	idp, err := NewIdP()
 	if err != nil {
 		rep.Inconclusive(err.Error())
@@ -384,6 +384,16 @@ func c05Run(l *Lab, rep *Report, w *c05World) {
 				defer other.Close()
 				return NTLMAuthFunc(scheme, w.u1, ntlmPw[w.u1], "")(other, "RDG_OUT_DATA")
 			}},
+			cred{name: scheme + " type 3 for another connection's challenge, same forwarding headers on both", scheme: "ntlm", pre: func(hc *HConn, method string) (Hdr, error) {
+				other, err := DialH(w.gw.Addr, DialOpts{TLS: w.tls})
+				if err != nil {
+					return nil, err
+				}
+				defer other.Close()
+				fwd := Hdr{{"X-Forwarded-For", "192.0.2.7"}, {"X-Real-Ip", "192.0.2.7"}, {"Forwarded", "for=192.0.2.7"}}
+				h, err := NTLMAuthFuncX(scheme, w.u1, ntlmPw[w.u1], "", fwd)(other, "RDG_OUT_DATA")
+				return append(h, fwd...), err
+			}},
 			cred{name: scheme + " replayed type 3 after success", scheme: "ntlm", pre: func(hc *HConn, method string) (Hdr, error) {
 				h, err := NTLMAuthFunc(scheme, w.u1, ntlmPw[w.u1], "")(hc, "GET")
 				if err != nil {
@@ -610,6 +620,78 @@ func c05Run(l *Lab, rep *Report, w *c05World) {
 		}
 		rep.Count("concurrent_basic_requests", len(results))
 		rep.Eval(HashStr(name, "concurrent-basic"))
+	}
+	// overlapping Basic requests of different users: each tunnel carries the user its own
+	// credentials confirmed, whatever other requests are being verified at the same time
+	if w.fake != nil && has(w.mech, "local") && !has(w.mech, "openid") {
+		w.fake.mu.Lock()
+		w.fake.BasicDelay = 40 * time.Millisecond
+		w.fake.mu.Unlock()
+		probeOwn := func(t *TClient, b *Backend) (uint32, bool) {
+			ck := "unused"
+			steps := [][]byte{HandshakeReq(1, 0, 0, 0), TunnelCreate(0, &ck), TunnelAuth("c"), ChannelCreate(b.Host, uint16(b.Port))}
+			var st uint32
+			for i, s := range steps {
+				t.Send(s)
+				if n, _ := t.WaitPackets(i+1, 10*time.Second); n < i+1 {
+					return 0, false
+				}
+				st, _ = LenientStatus(t.Snapshot().Packets[i].Raw)
+				if i < 3 && st != 0 {
+					return st, false
+				}
+			}
+			return st, true
+		}
+		for r := 0; r < l.Pick(6, 40); r++ {
+			var wg sync.WaitGroup
+			for k := 0; k < 6; k++ {
+				wg.Add(1)
+				go func(k int) {
+					defer wg.Done()
+					time.Sleep(time.Duration(k) * 5 * time.Millisecond)
+					switch k {
+					case 0, 3:
+						u, own, other := w.u1, w.b1, w.b2
+						if k == 3 {
+							u, own, other = w.u2, w.b2, w.b1
+						}
+						tgt := own
+						if r%2 == 1 {
+							tgt = other
+						}
+						out := w.c05Request("RDG_OUT_DATA-upgrade", Hdr{{"Authorization", basic(u, w.basicPw(u))}}, nil)
+						if out.T == nil {
+							if out.Err == nil {
+								rep.Violate("C05/confirmed-credentials-refused/"+name+"/concurrent-users", fmt.Sprintf("mechanisms %v: right Basic credentials of %q refused (%d) while other users' requests were being verified", w.mech, u, out.Status), nil)
+							}
+							return
+						}
+						defer out.T.Close()
+						st, ok := probeOwn(out.T, tgt)
+						rep.Eval(HashStr(name, "concurrent-users", k, r%2, st, ok))
+						rep.Count("concurrent_user_tunnels", 1)
+						if !ok {
+							return
+						}
+						if tgt == own && st != 0 {
+							rep.Violate("C05/tunnel-user-is-not-the-confirmed-user/"+name+"/concurrent-users", fmt.Sprintf("mechanisms %v: user %q, confirmed while other users' Basic requests were being verified, may not open its own host (status %#x): the tunnel carries another identity", w.mech, u, st), nil)
+						}
+						if tgt == other && st == 0 {
+							rep.Violate("C05/tunnel-user-is-not-the-confirmed-user/"+name+"/concurrent-users", fmt.Sprintf("mechanisms %v: user %q, confirmed while other users' Basic requests were being verified, was allowed to open the other user's host", w.mech, u), nil)
+						}
+					case 1, 4:
+						w.c05Request("GET", Hdr{{"Authorization", basic("administrator", "guess")}}, nil)
+					default:
+						w.c05Request("GET", Hdr{{"Authorization", basic(map[bool]string{true: w.u1, false: w.u2}[k == 5], "wrong-password")}}, nil)
+					}
+				}(k)
+			}
+			wg.Wait()
+		}
+		w.fake.mu.Lock()
+		w.fake.BasicDelay = 0
+		w.fake.mu.Unlock()
 	}
 	// PAM conservation for the real service: no Basic call may reach PAM when local is disabled
 	if w.authp != nil && !has(w.mech, "local") {
